@@ -123,7 +123,7 @@ def close_zygotes():
 def text_requests(thorough):
     out = []
     for r in R.POOL.values():
-        if "jitonly" in r.tags:
+        if "jitonly" in r.tags or "bad" in r.tags:
             continue
         if not thorough and r.name in ("dg_jump_hex", "hyperelastic_tet"):
             continue
@@ -134,10 +134,20 @@ def text_requests(thorough):
 def jit_requests(thorough):
     out = []
     for r in R.POOL.values():
+        if "bad" in r.tags:
+            continue
         if not thorough and r.name in ("dg_jump_hex", "hyperelastic_tet"):
             continue
         out.append(r.name)
     return out
+
+
+def history_pool(names):
+    """Requests that may appear inside a history ('goldonly' ones need a process of their own)."""
+    return [n for n in names if "goldonly" not in R.get(n).tags]
+
+
+BAD = [r.name for r in R.POOL.values() if "bad" in r.tags]
 
 
 def families(pool):
@@ -178,8 +188,9 @@ def text_fields(o):
 
 
 def golden_ops(dname, kinds):
-    ops = [["build", "s0", dname, []]]
     r = R.get(dname)
+    ops = [["cfgfile", r.cfg_options]] if r.cfg_options else []
+    ops.append(["build", "s0", dname, []])
     if "text" in kinds and "jitonly" not in r.tags:
         ops.append(["compile", "s0", None])
         ops.append(["compile", "s0", "numba"])
@@ -228,7 +239,7 @@ def group_hashseed(base, i):
 def gen_history(seed, mode, thorough, hashseed):
     """mode: 'text' (C12) or 'jit' (C13)."""
     rng = core.rng_for(seed, "hist-" + mode)
-    pool = text_requests(thorough) if mode == "text" else jit_requests(thorough)
+    pool = history_pool(text_requests(thorough) if mode == "text" else jit_requests(thorough))
     nreq = rng.choice([2, 3, 4, 5, 6, 8])
     if rng.random() < 0.4:
         fam = rng.choice(families(pool))
@@ -236,6 +247,10 @@ def gen_history(seed, mode, thorough, hashseed):
     else:
         ds = [rng.choice(pool) for _ in range(nreq)]
     ops = []
+    if rng.random() < 0.7:
+        # the caller keeps one options mapping per option set and hands the same object to
+        # every compilation of the history that uses these options
+        ops.append(["share_options", True])
     # prefix: unrelated creations / churn / option calls.  Some counts are chosen so that UFL's
     # global counters cross 9 -> 10 or 99 -> 100 inside the request (names such as w_9 / w_10
     # compare differently as strings and as numbers)
@@ -253,6 +268,7 @@ def gen_history(seed, mode, thorough, hashseed):
             ops.append(["options", rng.choice(["chdir", "get"])])
     if any("npstr" in R.get(d).tags for d in ds) and rng.random() < 0.5:
         ops.insert(rng.randrange(len(ops) + 1), ["nprint", rng.choice(["low", "low", "high", "legacy"])])
+    threaded = rng.random() < 0.35
     pending = []  # (slot, dname)
     nslot = 0
     # the simulator's estimate of UFL's global counters (Coefficient, Constant, Mesh), used for
@@ -308,7 +324,28 @@ def gen_history(seed, mode, thorough, hashseed):
                 break
             s, dn = rng.choice(pending)
             rq = R.get(dn)
+            # an earlier compilation of *other* objects with this request's options (shared
+            # mapping), successful or rejected
+            if rng.random() < (0.35 if rq.options else 0.08):
+                if rng.random() < 0.5 or len(pending) < 2:
+                    bs = f"s{nslot}"
+                    nslot += 1
+                    ops.append(["build", bs, rng.choice(BAD), []])
+                    ops.append(["xcompile", bs, dn, None])
+                    ops.append(["drop", bs])
+                else:
+                    s2, dn2 = rng.choice([x for x in pending if x[0] != s])
+                    ops.append(["xcompile", s2, dn, rng.choice([None, None, "numba"])])
             c = rng.random()
+            variants = [n for n in pool if n != dn and n.split("@")[0] == dn.split("@")[0]
+                        and R.get(n).stmts == rq.stmts and not R.get(n).jit_kwargs
+                        and "jitonly" not in R.get(n).tags]
+            if variants and "jitonly" not in rq.tags and rng.random() < 0.2:
+                # the same objects compiled with the options of a sibling request
+                if mode == "jit" and rng.random() < 0.7:
+                    ops.append(["jitname", s, None, rng.choice(variants)])
+                else:
+                    ops.append(["compile", s, rng.choice([None, None, "numba"]), rng.choice(variants)])
             if mode == "text":
                 if "jitonly" in rq.tags:
                     ops.append(["jitname", s])
@@ -327,6 +364,13 @@ def gen_history(seed, mode, thorough, hashseed):
                     ops.append(["jitname", s])
                 else:
                     ops.append(["compile", s, None])
+            if mode == "text" and threaded and len(pending) >= 2 and rng.random() < 0.3:
+                # two (sometimes three) compilations overlapping in threads of this process
+                k = 3 if len(pending) >= 3 and rng.random() < 0.2 else 2
+                js = [[x[0], rng.choice([None, None, None, "numba"])] for x in rng.sample(pending, k)
+                      if "jitonly" not in R.get(x[1]).tags]
+                if len(js) >= 2:
+                    ops.append(["tcompile", js, rng.randrange(1, 2**31), rng.choice([2, 10, 30, 100, 300])])
             c = rng.random()
             if c < 0.12 and rq.kind == "forms":
                 ns = f"s{nslot}"
@@ -560,6 +604,8 @@ def _run_job(a):
     goldens = _load_goldens(goldens_path)
     scn = gen_history(seed, mode, thorough, hashseed)
     res = run_child(scn["hashseed"], scn["ops"], want_text=False)
+    if res.get("crash") and res.get("rc") == 41 << 8:
+        raise core.HarnessError(f"thread scheduler of history {seed} deadlocked (exit 41)")
     # cheap pass on digests only; fetch text again only for mismatching histories
     quick = check_history_digest(scn, res, goldens, prop)
     viol = []
@@ -569,7 +615,7 @@ def _run_job(a):
         if not viol and not res_t.get("crash"):
             viol = [{"key": "H-NONDET", "at": None, "D": None,
                      "detail": "digest mismatch not reproduced with text: " + str(quick[:1])}]
-    logd = core.digest_of([[e["op"], e.get("stamp"), _strip(e.get("o"))] for e in res.get("log", [])])
+    logd = core.digest_of(_log_rows(res))
     stats = history_stats(scn, res)
     return {"seed": seed, "scn": scn, "viol": viol, "digest": logd, "stats": stats}
 
@@ -593,6 +639,11 @@ def _run_groups(jobs):
         for (idx, _), r in zip(g, out):
             res[idx] = r
     return res
+
+
+def _log_rows(res):
+    return [[e["op"], e.get("stamp"), _strip(e.get("o")), e.get("outcome"), e.get("switches"),
+             [_strip(x) for x in e.get("o_multi", [])] or None] for e in res.get("log", [])]
 
 
 def _strip(o):
@@ -672,11 +723,21 @@ def history_stats(scn, res):
                     st["probe_same_objects_compiled_twice"] += 1
             if compiled_before:
                 st["probe_obs_after_other_compile"] += 1
+            if op[0] in ("compile", "jitname") and len(op) > 3 and op[3]:
+                st["probe_same_objects_compiled_with_sibling_options"] += 1
             if op[0] == "compile" and op[2] == "numba":
                 st["probe_numba_text"] += 1
             if op[0] == "cli":
                 st["probe_cli"] += 1
             compiled_before.add(op[1])
+        elif op[0] == "tcompile":
+            st["probe_compilations_overlapping_in_threads"] += 1
+        elif op[0] == "xcompile":
+            st["probe_earlier_compile_with_same_options_mapping"] += 1
+            if slot_req.get(op[1]) in BAD:
+                st["probe_earlier_compile_rejected"] += 1
+        elif op[0] == "share_options":
+            st["probe_histories_sharing_options_mapping"] += 1
         elif op[0] == "reform":
             slot_req[op[2]] = slot_req.get(op[1], "mass_p1_interval")
             st["probe_reform"] += 1
@@ -700,8 +761,11 @@ def _valid_ops(ops):
     for op in ops:
         if op[0] == "build":
             built.add(op[1])
-        elif op[0] in ("compile", "jitname"):
+        elif op[0] in ("compile", "jitname", "xcompile"):
             if op[1] not in built:
+                continue
+        elif op[0] == "tcompile":
+            if any(j[0] not in built for j in op[1]):
                 continue
         elif op[0] == "reform":
             if op[1] not in built:
@@ -720,7 +784,7 @@ def minimise(scn, goldens, prop, key):
 
     def test(sub):
         sub = _valid_ops(sub)
-        if not any(o[0] in ("compile", "jitname", "cli") for o in sub):
+        if not any(o[0] in ("compile", "jitname", "cli", "tcompile") for o in sub):
             return False
         return _fails_with(hs, sub, goldens, prop, key)
 
@@ -778,13 +842,15 @@ def replay(path):
             print(f"VIOLATION property={prop} replay={path}")
         return 1 if hit else 0
     scn = rp["scenario"]
-    dnames = sorted({op[2] for op in scn["ops"] if op[0] == "build"} |
-                    {op[1] for op in scn["ops"] if op[0] == "cli"})
+    dnames = sorted(({op[2] for op in scn["ops"] if op[0] == "build"} |
+                     {op[1] for op in scn["ops"] if op[0] == "cli"} |
+                     {op[3] for op in scn["ops"] if op[0] in ("compile", "jitname") and len(op) > 3 and op[3]})
+                    - set(BAD))
     goldens = build_goldens(dnames, ("text", "cli", "jit"))
     res = run_child(scn["hashseed"], scn["ops"], want_text=True)
     viol = check_history(scn, res, goldens, prop)
     hit = [x for x in viol if x["key"] == rp["invariant"]]
-    logd = core.digest_of([[e["op"], e.get("stamp"), _strip(e.get("o"))] for e in res.get("log", [])])
+    logd = core.digest_of(_log_rows(res))
     same = logd == rp.get("digest")
     print(f"replay {path}: invariant {rp['invariant']} " + ("REPRODUCED" if hit else "not reproduced")
           + f"; event-log digest {'identical' if same else 'differs'}")
@@ -883,7 +949,7 @@ def run_check(prop, tier, base, replay_path=None):
     for (key, r, x, nw, _, _), (small, res) in zip(todo, mins):
         viol = check_history(small, res, goldens, prop)
         hit = [y for y in viol if y["key"] == key]
-        logd = core.digest_of([[e["op"], e.get("stamp"), _strip(e.get("o"))] for e in res.get("log", [])])
+        logd = core.digest_of(_log_rows(res))
         payload = {
             "engine": "histsim", "property": prop, "invariant": key, "scenario": small,
             "original_seed": r["seed"], "original_ops": len(r["scn"]["ops"]),
